@@ -76,8 +76,13 @@ def cases(rng, tier, shard, nshards):
             continue
         c = H.gen_history(rng, nsteps=rng.randint(4, 16 if tier == "quick" else 40), failing=0.55,
                           fanout=rng.random() < 0.5, tags=rng.random() < 0.3)
-        if rng.random() < 0.25:
+        k = rng.random()
+        if k < 0.25:
             c["vlevel"] = 0
+        elif k < 0.45:
+            c["vlevel"] = 3         # (assignments are checked when they are made)
+        elif k < 0.55:
+            c["vlevel"] = 2
         if rng.random() < 0.4:
             # give the header single-definition tags so that conflicting header lines exist
             ts = rng.randint(1, 9)
